@@ -1,7 +1,10 @@
 """C03 — every request is answered with one well-formed response, whatever came before."""
 import re
 
-from common import Check, impl_run_parallel
+import concurrent.futures
+import gzip
+
+from common import Check, impl_run, impl_run_parallel, NPROC
 import gen
 import trees
 import validators as V
@@ -16,6 +19,119 @@ FULL_HANDLERS = ("[url.HTMLURLHandler, gophermap.BuckGophermapHandler, mbox.Mail
                  "mbox.MBoxMessageHandler, mbox.MBoxFolderHandler, pyg.PYGHandler, "
                  "ZIP.ZIPHandler, file.FileHandler, url.URLTypeRewriter]")
 FULL_CONFIG = {"handlers.HandlerMultiplexer": {"handlers": FULL_HANDLERS}, "handlers.ZIP.ZIPHandler": {"enabled": "true"}}
+
+
+def impl_run_isolated(jobs):
+    """Every job in a driver process of its own (order preserved): state that the implementation keeps
+    in its process (module or class level) cannot travel from one job to another."""
+    if not jobs:
+        return []
+    with concurrent.futures.ThreadPoolExecutor(max_workers=NPROC) as ex:
+        outs = list(ex.map(lambda j: impl_run([j])[0], jobs))
+    return outs
+
+
+# ---- HTTP requests with varied header blocks (they select WAP, and they are state that must die with the request) ----
+HEADER_BLOCKS = [
+    b"Accept: text/html, text/vnd.wap.wml\r\nX-Wap-Profile: \"http://wap.example/p.xml\"\r\n\r\n",
+    b"accept: */*, text/vnd.wap.wml\r\nx-up-devcap-max-pdu: 1024\r\n\r\n",
+    b"ACCEPT: text/plain text/vnd.wap.wml;q=0.9\r\nX-WAP-PROFILE: 1\r\nUser-Agent: Nokia7110/1.0\r\n\r\n",
+    b"Accept: image/gif, text/vnd-wap+wml\r\nX-Up-Devcap-Max-Pdu:1\r\n\r\n",
+    b"Accept: text/html, text/vnd.wap.wml\r\n\r\n",                       # lists WML, no device field
+    b"X-Wap-Profile: 1\r\nX-Up-Devcap-Max-Pdu: 2\r\n\r\n",               # device fields, no Accept
+    b"Accept: text/html\r\nX-Wap-Profile: 1\r\n\r\n",                    # Accept without WML
+    b"Accept:text/vnd.wap.wml\r\nX-Wap-Profile: 1\r\n\r\n",              # WML not preceded by ", " or " "
+    b"Accept: text/plain\r\nHost: gopher.example\r\nUser-Agent: curl/8\r\nConnection: close\r\n\r\n",
+    b"Accept: a\r\nAccept: b, text/vnd.wap.wml\r\nX-Wap-Profile: 1\r\nX-Wap-Profile: 2\r\n\r\n",   # duplicates
+    b"Accept: b, text/vnd.wap.wml\r\nAccept: text/html\r\nX-Wap-Profile: 1\r\n\r\n",             # the later duplicate wins
+    b"no colon in this line\r\n: empty name\r\n\xff\xfe: \x00\x01\r\nAccept\r\n\r\n",           # garbage
+    b" Accept: , text/vnd.wap.wml\r\n\tX-Wap-Profile: 1\r\n\r\n",         # leading white space (continuation lines)
+    b"Accept : , text/vnd.wap.wml\r\nX-Wap-Profile : 1\r\n\r\n",          # space before the colon
+    b"Accept: , text/vnd.wap.wml\nX-Wap-Profile: 1\n\n",                   # bare LF line ends
+    b"Accept: , text/vnd.wap.wml\r\nX-Wap-Profile: 1",                     # block ends at EOF, no blank line
+    b"\r\nAccept: , text/vnd.wap.wml\r\nX-Wap-Profile: 1\r\n\r\n",         # fields after the blank line are body
+    b"Host: h\r\n" * 400 + b"Accept: x, text/vnd.wap.wml\r\nX-Up-Devcap-Max-Pdu: 9\r\n\r\n",   # long block
+    b"Accept: " + b"text/html, " * 3000 + b"text/vnd.wap.wml\r\nX-Wap-Profile: 1\r\n\r\n",       # one very long field
+    b"Cookie: " + b"x" * 30000 + b"\r\n\r\n",
+    b"Accept: text/vnd.wap.wml, text/vnd.wap.wml\r\nX-Wap-Profile:\r\n\r\n",
+    b"Accept-Language: en\r\nAccept-Charset: , text/vnd.wap.wml\r\nX-Wap-Profile: 1\r\n\r\n",   # WML in another field
+    b"",                                                                # nothing at all after the request line
+    b"\r\n",
+]
+HEADER_TARGETS = [b"GET /", b"GET /a.txt", b"HEAD /dir1", b"GET /nonexistent", b"GET /wap/dir1", b"GET /b.html?searchrequest=x"]
+# probes of the history leg: requests that carry no header field of their own, in every syntax
+BARE_PROBES = [(b"GET / HTTP/1.0\r\n\r\n", False), (b"GET /a.txt HTTP/1.0\r\n\r\n", False), (b"GET /nonexistent HTTP/1.0\r\n\r\n", False),
+               (b"HEAD /dir1 HTTP/1.0\r\n\r\n", False), (b"GET /dir1 HTTP/1.0\r\n", False), (b"GET /a.txt HTTP/1.0", False),
+               (b"GET / HTTP/1.0\r\n\r\n", True), (b"GET /a.txt HTTP/1.0\r\nHost: gopher.example\r\n\r\n", False),
+               (b"GET /wap/ HTTP/1.0\r\n\r\n", False), (b"/\r\n", False), (b"/a.txt\t+\r\n", False), (b"/dir1\t$\r\n", True),
+               (b"gemini://gopher.example/dir1\r\n", True), (b"gopher.example /a.txt 0\r\n", False)]
+
+
+def header_requests(rng):
+    """(bytes, tls) HTTP requests with every header block; each block on a few targets"""
+    out = []
+    for hb in HEADER_BLOCKS:
+        tg = [HEADER_TARGETS[0]] + rng.sample(HEADER_TARGETS[1:], 2)
+        for t in tg:
+            out.append((t + b" HTTP/1.0\r\n" + hb, False))
+        out.append((rng.choice(HEADER_TARGETS) + b" HTTP/1.0\r\n" + hb, True))
+    return out
+
+
+# ---- long pathological-repetition lines: a long run of one unit followed by something else ----
+RUN_UNITS = [b"/", b".", b"%", b"\t", b" ", b"?", b"|", b"a", b"../", b"%2F", b"%2f%2E", b"/./", b"//a", b"\\", b"&=", b"+", b"#",
+             b"\r", b"\x00", b"\xff", b"\xc3", b"'", b"<", b"[", b":"]
+RUN_SIZES = (8192, 32768)
+
+
+def long_run_requests(rng, tier):
+    """-> list of (bytes, tls, key, size): key identifies (syntax, shape) so that the two sizes of one shape can be compared.
+    Shapes: run+tail, head+run+tail, nested/alternating runs.  10-60 kB lines in every protocol syntax; oracle only —
+    these never go into a Coq literal."""
+    out = []
+    units = RUN_UNITS if tier != "quick" else RUN_UNITS[:12] + rng.sample(RUN_UNITS[12:], 4)
+    for u in units:
+        for shape in ("run-x", "docs-run-x", "alt"):
+            if tier == "quick" and shape == "alt" and u not in (b"/", b".", b"%", b"?", b"|"):
+                continue
+            for size in RUN_SIZES:
+                n = size // len(u)
+                if shape == "run-x":
+                    sel = b"/" + u * n + b"x"
+                elif shape == "docs-run-x":
+                    sel = b"/dir1" + u * n + b"x/" + u * 3
+                else:
+                    half = n // 2
+                    sel = b"/" + (u * 7 + b"b") * (half // 7) + u * half + b"!"
+                for proto in gen.PROTOCOLS:
+                    tls = gen.TLS[proto]
+                    if proto in ("gopher", "sgopher"):
+                        data = sel + b"\r\n"
+                    elif proto in ("gopherplus", "sgopherplus"):
+                        data = sel.replace(b"\t", b" ") + b"\t+\r\n" if u != b"\t" else sel + b"\t+\r\n"
+                    elif proto in ("http", "https", "wap"):
+                        data = b"GET " + (b"/wap" if proto == "wap" else b"") + sel + b" HTTP/1.0\r\n\r\n"
+                    elif proto == "gemini":
+                        data = b"gemini://gopher.example" + sel + b"\r\n"
+                    else:
+                        data = b"gopher.example " + sel + b" 0\r\n"
+                    out.append((data, tls, (proto, shape, u), size))
+    # runs in the places other than the selector: search field, query string, header block, Spartan body length
+    for size in RUN_SIZES:
+        out.append((b"/a.txt\t" + b"q" * size + b"!\r\n", False, ("gopher", "search-run", b"q"), size))
+        out.append((b"/a.txt" + b"\t" * size + b"+\r\n", False, ("gopher", "tab-fields", b"\t"), size))
+        out.append((b"GET /a.txt?" + b"&" * size + b"x HTTP/1.0\r\n\r\n", False, ("http", "query-amp", b"&"), size))
+        out.append((b"GET /a.txt?searchrequest=" + b"%" * size + b"x HTTP/1.0\r\n\r\n", False, ("http", "query-pct", b"%"), size))
+        out.append((b"GET /a.txt?" + b"a=b&" * (size // 4) + b" HTTP/1.0\r\n\r\n", False, ("http", "query-pairs", b"a=b&"), size))
+        out.append((b"GET /a.txt HTTP/1.0\r\n" + b"X: y\r\n" * (size // 6) + b"\r\n", False, ("http", "header-lines", b"X: y"), size))
+        out.append((b"GET /a.txt HTTP/1.0\r\nAccept:" + b" ," * (size // 2) + b"x\r\nX-Wap-Profile: 1\r\n\r\n", False, ("http", "accept-run", b" ,"), size))
+        out.append((b"gemini://" + b"h" * size + b"/a.txt\r\n", True, ("gemini", "host-run", b"h"), size))
+        out.append((b"gemini://h/a.txt?" + b"%" * size + b"z\r\n", True, ("gemini", "query-pct", b"%"), size))
+        out.append((b"gemini://h/GEMINI-QUERY/" + b"/" * size + b"x?q\r\n", True, ("gemini", "redirect-run", b"/"), size))
+        out.append((b"h /a.txt " + b"0" * size + b"7\r\nabcdefg", False, ("spartan", "length-zeros", b"0"), size))
+        out.append((b"/mail.mbox|/MBOX-MESSAGE/" + b"9" * size + b"\r\n", False, ("gopher", "message-digits", b"9"), size))
+        out.append((b"/URL:" + b"x" * size + b":/\r\n", False, ("gopher", "url-run", b"x"), size))
+    return out
 
 
 def malformed_stream(rng):
@@ -100,18 +216,21 @@ def run(tier):
         for _ in range(10 if tier == "quick" else 60):
             raw = bytes(rng.randrange(256) for _ in range(rng.randrange(0, 40)))
             reqs.append((raw + b"\r\n", gen.TLS[proto], "random"))
+    for data, tls in header_requests(rng):
+        reqs.append((data, tls, "headers"))
+    header_idx = [i for i, r in enumerate(reqs) if r[2] == "headers"]
     # ---- worlds: every request alone (two handler lists), and after histories ----
     singles = [{"data": gen.lat(d), "tls": t} for d, t, _ in reqs]
     jobs = [{"op": "world", "tree": tree, "config": cfg, "requests": singles} for cfg in (trees.SITE_CONFIG, dict(trees.SITE_CONFIG, **FULL_CONFIG))]
     nhist = 260 if tier == "quick" else 1500
     benign = [i for i, r in enumerate(reqs) if r[2] == "benign"]
     hist_jobs = []
-    def find_req(data):
+    def find_req(data, tls=False):
         for i, r in enumerate(reqs):
-            if r[0] == data:
+            if r[0] == data and r[1] == tls:
                 return i
-        reqs.append((data, False, "benign"))
-        singles.append({"data": gen.lat(data), "tls": False})
+        reqs.append((data, tls, "benign"))
+        singles.append({"data": gen.lat(data), "tls": tls})
         return len(reqs) - 1
     corpus = []
     # a listing served from the directory cache must equal the one generated afresh, in every form
@@ -122,90 +241,157 @@ def run(tier):
     corpus += [([find_req(b"/md/new\r\n")], find_req(b"/md\r\n")),
               ([find_req(b"/dir1\r\n")], find_req(b"/dir1/.cache.pygopherd.dir\r\n")),
               ([find_req(b"/md\r\n"), find_req(b"/mail.mbox\r\n")], find_req(b"/mail.mbox|/MBOX-MESSAGE/2\r\n"))]
+    # what one request said in its header block (or anywhere else) must not reach the next one: every kind of
+    # header block as the history of requests that carry no field of their own, in every syntax
+    probes = [find_req(d, tl) for d, tl in BARE_PROBES]
+    http_probes = [pi for pi, (d, _) in zip(probes, BARE_PROBES) if d.startswith((b"GET", b"HEAD"))]
+    for hi in header_idx:
+        picks = http_probes if tier != "quick" else rng.sample(http_probes, 3)
+        for pi in picks + [rng.choice(probes)]:
+            corpus.append(([hi], pi))
+    for pi in probes:                                   # several header blocks in a row, then the probe
+        corpus.append(([rng.choice(header_idx) for _ in range(rng.randrange(2, 6))], pi))
+    for hi in rng.sample(header_idx, 12):               # and the other way round
+        corpus.append(([rng.choice(probes)], hi))
+    nhist = max(nhist, len(corpus) + (120 if tier == "quick" else 800))
+    pool = benign + header_idx + probes
     for n_h in range(nhist):
         k = rng.randrange(1, 7)
-        h = [rng.choice(benign) for _ in range(k)]
-        target = rng.randrange(len(reqs))
+        h = [rng.choice(pool) for _ in range(k)]
+        target = rng.choice(probes + header_idx) if rng.random() < 0.3 else rng.randrange(len(reqs))
         if n_h < len(corpus):
             h, target = corpus[n_h]
         hist_jobs.append((h, target))
-        jobs.append({"op": "world", "tree": tree, "config": trees.SITE_CONFIG,
-                     "requests": [singles[i] for i in h] + [singles[target]]})
-        jobs.append({"op": "world", "tree": tree, "config": trees.SITE_CONFIG, "requests": [singles[target]]})
-    res = impl_run_parallel(jobs)
+    # every history in a process of its own, and the answer to each target from a fresh process with nothing before it:
+    # state kept anywhere in the server process (module, class, cache files of the scratch tree) cannot hide in the baseline
+    targets = sorted(set(tg for _, tg in hist_jobs))
+    iso_jobs = [{"op": "world", "tree": tree, "config": trees.SITE_CONFIG, "requests": [singles[i] for i in h] + [singles[tg]]}
+                for h, tg in hist_jobs]
+    iso_jobs += [{"op": "world", "tree": tree, "config": trees.SITE_CONFIG, "requests": [singles[tg]]} for tg in targets]
+    # long pathological lines: a world of their own (oracle only, never a Coq literal)
+    longs = long_run_requests(rng, tier)
+    long_jobs = []
+    for k in range(0, len(longs), 12):
+        long_jobs.append({"op": "world", "tree": tree, "config": trees.SITE_CONFIG,
+                          "requests": [{"data": gen.lat(d), "tls": tl} for d, tl, _, _ in longs[k:k + 12]]})
+    res = impl_run_parallel(jobs + long_jobs)
     for r in res:
         if not r["ok"]:
             raise RuntimeError(r["err"] + "\n" + r.get("tb", ""))
+    long_outs = [o for r in res[2:] for o in r["res"]["results"]]
+    iso_res = impl_run_isolated(iso_jobs)
+    for r in iso_res:
+        if not r["ok"]:
+            raise RuntimeError(r["err"] + "\n" + r.get("tb", ""))
+    fresh = {tg: iso_res[len(hist_jobs) + k]["res"]["results"][0] for k, tg in enumerate(targets)}
     tindex = {"/" + e["path"].encode("latin-1").decode("utf-8", "surrogateescape"): ("dir" if e.get("kind") == "dir" else "file") for e in tree}
     sizes = {"/" + e["path"].encode("latin-1").decode("utf-8", "surrogateescape"): len(e.get("data", "")) for e in tree
              if e.get("kind", "file") == "file"}
     stats = {"empty_replies": 0, "malformed": 0, "internal_errors": 0, "slow": 0, "history_diffs": 0}
+    def judge(data, tls, label, o, cfgname, transport="memory", extra=None):
+        """the per-reply oracle; reports and returns True when the reply violates the property"""
+        ob = o["out"].encode("latin-1")
+        m = re.search(r"\[(\w+)/", " ".join(o["log"]))
+        cls = m.group(1) if m else None
+        proto = CLS.get(cls)
+        chk.count((cfgname, transport, data[:200], len(data), tls), nontrivial=label != "benign")
+        tagbase = None
+        why = None
+        bad_logs = [l for l in o["log"] if "EXCEPTION" in l and "EXCEPTION FileNotFound" not in l]
+        if o["exc"] and o["exc"].startswith("RequestTimeLimit"):
+            why, tagbase = "no complete reply within the time limit: " + o["exc"], "slow"
+            stats["slow"] += 1
+        elif o["exc"]:
+            why, tagbase = "exception escapes the connection handler: " + o["exc"], "escape"
+        elif bad_logs:
+            # an I/O error that the protocol turned into its own error reply is handled, not internal
+            handled = False
+            if proto is not None and re.search(r"EXCEPTION \w*(Error|IOError)\b", bad_logs[0]) and len(bad_logs) == 1:
+                try:
+                    handled = V.validate(proto, ob)["kind"] == "error" and re.search(
+                        r"EXCEPTION (IsADirectoryError|NotADirectoryError|PermissionError|FileNotFoundError|OSError|IOError)\b", bad_logs[0]) is not None
+                except V.Malformed:
+                    handled = False
+            if not handled:
+                why, tagbase = "unhandled internal error: " + bad_logs[0], "internal-error"
+                stats["internal_errors"] += 1
+        elif proto is None and ob == b"":
+            why, tagbase = "no reply at all", "empty-reply"
+        if why is None and proto is not None:
+            try:
+                v = V.validate(proto, ob)
+                if ob == b"":
+                    # an empty reply is a valid plain-Gopher document only for an empty file
+                    first = data.split(b"\r\n")[0].split(b"\n")[0].split(b"\t")[0].strip().decode("utf-8", "surrogateescape")
+                    ek = expected_kind(tindex, "/" + first.lstrip("/") if not first.startswith("/") else first)
+                    sel_n = ("/" + first.lstrip("/")).rstrip("/")
+                    empty_file = ek == "file" and sizes.get(sel_n) == 0
+                    empty_dir = ek == "dir" and not any(k.startswith(sel_n + "/") for k in tindex)
+                    if not (empty_file or empty_dir):
+                        why, tagbase = "empty reply", "empty-reply"
+                        stats["empty_replies"] += 1
+            except V.Malformed as e:
+                why, tagbase = "reply is not valid %s: %s" % (proto, e), "malformed-reply"
+                stats["malformed"] += 1
+        if why is None and o["secs"] > 5.0:
+            why, tagbase = "took %.1f s" % o["secs"], "slow"
+            stats["slow"] += 1
+        if why:
+            # stable classification of the failing input for known-findings matching
+            sub = "other"
+            if b"MBOX-MESSAGE" in data or b"MAILDIR-MESSAGE" in data:
+                sub = "message-number"
+            elif b"[" in data or b"]" in data:
+                sub = "gemini-bracket"
+            elif b"%0D" in data.upper() or b"%0A" in data.upper():
+                sub = "crlf-in-selector"
+            elif b"\x00" in data or b"%00" in data:
+                sub = "nul"
+            if len(data) > 4096 and tagbase == "slow":
+                sub = "long-line"
+            rep = {"what": why, "request_latin1": gen.lat(data) if len(data) <= 4096 else None, "tls": tls, "detected_protocol": cls,
+                   "handlers": cfgname, "transport": transport, "response_latin1": o["out"][:400], "log": [l[:400] for l in o["log"][-4:]],
+                   "seconds": o["secs"], "tree": tree}
+            if len(data) > 4096:
+                rep["request_length"] = len(data)
+                rep["request_head_latin1"] = gen.lat(data[:200])
+                rep["request_tail_latin1"] = gen.lat(data[-80:])
+            rep.update(extra or {})
+            chk.violation(rep, tag=f"{tagbase}:{sub}:{proto or 'none'}" + ("" if transport == "memory" else ":" + transport))
+            return True
+        return False
+
     for ci, cfgname in enumerate(("default", "full")):
         outs = res[ci]["res"]["results"]
         for (data, tls, label), o in zip(reqs, outs):
-            ob = o["out"].encode("latin-1")
-            m = re.search(r"\[(\w+)/", " ".join(o["log"]))
-            cls = m.group(1) if m else None
-            proto = CLS.get(cls)
-            chk.count((cfgname, data, tls), nontrivial=label != "benign")
-            tagbase = None
-            why = None
-            bad_logs = [l for l in o["log"] if "EXCEPTION" in l and "EXCEPTION FileNotFound" not in l]
-            if o["exc"]:
-                why, tagbase = "exception escapes the connection handler: " + o["exc"], "escape"
-            elif bad_logs:
-                # an I/O error that the protocol turned into its own error reply is handled, not internal
-                handled = False
-                if proto is not None and re.search(r"EXCEPTION \w*(Error|IOError)\b", bad_logs[0]) and len(bad_logs) == 1:
-                    try:
-                        handled = V.validate(proto, ob)["kind"] == "error" and re.search(
-                            r"EXCEPTION (IsADirectoryError|NotADirectoryError|PermissionError|FileNotFoundError|OSError|IOError)\b", bad_logs[0]) is not None
-                    except V.Malformed:
-                        handled = False
-                if not handled:
-                    why, tagbase = "unhandled internal error: " + bad_logs[0], "internal-error"
-                    stats["internal_errors"] += 1
-            elif proto is None and ob == b"":
-                why, tagbase = "no reply at all", "empty-reply"
-            if why is None and proto is not None:
-                try:
-                    v = V.validate(proto, ob)
-                    if ob == b"":
-                        # an empty reply is a valid plain-Gopher document only for an empty file
-                        first = data.split(b"\r\n")[0].split(b"\n")[0].split(b"\t")[0].strip().decode("utf-8", "surrogateescape")
-                        ek = expected_kind(tindex, "/" + first.lstrip("/") if not first.startswith("/") else first)
-                        sel_n = ("/" + first.lstrip("/")).rstrip("/")
-                        empty_file = ek == "file" and sizes.get(sel_n) == 0
-                        empty_dir = ek == "dir" and not any(k.startswith(sel_n + "/") for k in tindex)
-                        if not (empty_file or empty_dir):
-                            why, tagbase = "empty reply", "empty-reply"
-                            stats["empty_replies"] += 1
-                except V.Malformed as e:
-                    why, tagbase = "reply is not valid %s: %s" % (proto, e), "malformed-reply"
-                    stats["malformed"] += 1
-            if why is None and o["secs"] > 5.0:
-                why, tagbase = "took %.1f s" % o["secs"], "slow"
-                stats["slow"] += 1
-            if why:
+            if judge(data, tls, label, o, cfgname):
                 found = True
-                # stable classification of the failing input for known-findings matching
-                sub = "other"
-                if b"MBOX-MESSAGE" in data or b"MAILDIR-MESSAGE" in data:
-                    sub = "message-number"
-                elif b"[" in data or b"]" in data:
-                    sub = "gemini-bracket"
-                elif b"%0D" in data.upper() or b"%0A" in data.upper():
-                    sub = "crlf-in-selector"
-                elif b"\x00" in data or b"%00" in data:
-                    sub = "nul"
-                chk.violation({"what": why, "request_latin1": gen.lat(data), "tls": tls, "detected_protocol": cls, "handlers": cfgname,
-                               "response_latin1": o["out"][:400], "log": o["log"][-4:], "tree": tree},
-                              tag=f"{tagbase}:{sub}:{proto or 'none'}")
+    # long lines: the reply, the absolute limit, and the growth of the time with the length of the same shape
+    by_shape = {}
+    for (data, tls, key, size), o in zip(longs, long_outs):
+        how = "a run of %d x %r (%s) in %s syntax" % (size // len(key[2]), key[2], key[1], key[0])
+        if judge(data, tls, "long", o, "default", extra={"shape": how}):
+            found = True
+        by_shape.setdefault(key, {})[size] = (o["secs"], data, tls)
+    stats["long_lines"] = len(longs)
+    stats["long_line_max_seconds"] = max([o["secs"] for o in long_outs] or [0])
+    for key, d in by_shape.items():
+        if len(d) == 2:
+            (t1, _, _), (t2, data2, tls2) = d[RUN_SIZES[0]], d[RUN_SIZES[1]]
+            chk.count(("growth", key), nontrivial=True)
+            # four times the length: linear work takes about four times as long; sixteen times means quadratic
+            if t2 > 0.4 and t2 > 9 * max(t1, 0.004):
+                found = True
+                stats["slow"] += 1
+                chk.violation({"what": "the time to answer grows faster than the request: %.3f s for %d bytes, %.3f s for %d bytes of the same shape"
+                                       % (t1, RUN_SIZES[0], t2, RUN_SIZES[1]),
+                               "shape": "a run of %r (%s) in %s syntax" % (key[2], key[1], key[0]), "request_length": len(data2),
+                               "request_head_latin1": gen.lat(data2[:200]), "request_tail_latin1": gen.lat(data2[-80:]), "tls": tls2, "tree": tree},
+                              tag=f"superlinear:{key[1]}:{key[0]}")
     # histories
     for k, (h, target) in enumerate(hist_jobs):
-        r = res[2 + 2 * k]
-        last = r["res"]["results"][-1]
-        alone = res[2 + 2 * k + 1]["res"]["results"][0]
+        last = iso_res[k]["res"]["results"][-1]
+        alone = fresh[target]
         a = gen.mask_times(last["out"].encode("latin-1"))
         b = gen.mask_times(alone["out"].encode("latin-1"))
         chk.count(("hist", tuple(h), target), nontrivial=True)
@@ -273,6 +459,93 @@ def run(tier):
             chk.violation({"what": why, "protocol": proto, "selector": sel, "gopherplus_form": gp, "faults": faults,
                            "request_latin1": freqs[fmeta.index((proto, sel, gp))]["data"], "response_latin1": o["out"][:300],
                            "log": o["log"][-4:], "tree": ftree}, tag=f"io-fault-reply:{proto}:{gp or 'plain'}")
+
+    # ---- live leg: the real ThreadingTCPServer and GopherRequestHandler on a TCP socket, real (TLS) clients; a handler list
+    # with the handlers that hand the connection's descriptor to a child process.  What the client receives is judged by
+    # the same validators, and must be what the in-memory transport delivered for the same request ----
+    live_handlers = FULL_HANDLERS.replace("ZIP.ZIPHandler,", "scriptexec.ExecHandler, file.CompressedFileHandler, ZIP.ZIPHandler,")
+    live_cfg = dict(trees.SITE_CONFIG, **FULL_CONFIG)
+    live_cfg["handlers.HandlerMultiplexer"] = {"handlers": live_handlers}
+    live_cfg["handlers.file.CompressedFileHandler"] = {"decompressors": "{'gzip': 'zcat'}"}
+    text = "".join("line %d of the compressed notes\n" % i for i in range(400))
+    ltree = [e for e in tree if not e["path"].startswith("odd/")] + [
+        {"path": "notes.txt.gz", "data": gen.lat(gzip.compress(text.encode(), mtime=0))},
+        {"path": "dir1/page.html.gz", "data": gen.lat(gzip.compress(b"<html><head><title>Zipped</title></head><body>z</body></html>\n", mtime=0))},
+        {"path": "blob.bin.gz", "data": gen.lat(gzip.compress(bytes(range(256)) * 300, mtime=0))},
+        {"path": "empty.txt.gz", "data": gen.lat(gzip.compress(b"", mtime=0))},
+        {"path": "broken.txt.gz", "data": "this is not gzip data\n"},
+        {"path": "hello.sh", "data": "#!/bin/sh\necho hello from a script\necho \"$QUERY_STRING\"\n", "mode": 0o755},
+    ]
+    for e in ltree:
+        e.setdefault("mtime", 1_700_000_000)
+    lreqs = []
+    lsel = ["/notes.txt.gz", "/dir1/page.html.gz", "/blob.bin.gz", "/empty.txt.gz", "/broken.txt.gz", "/hello.sh", "/a.txt", "/b.html", "/dir1",
+            "/", "/mail.mbox", "/mail.mbox|/MBOX-MESSAGE/1", "/md", "/maps", "/umn", "/empty.txt", "/emptydir", "/nonexistent", "/img.gif",
+            "/nope|/MBOX-MESSAGE/1", "/a.txt/x", "/dir1/../a.txt"]
+    for proto in gen.PROTOCOLS:
+        for s in lsel:
+            forms = ["+", "$", "!"] if proto.endswith("plus") else [None]
+            for gp in forms:
+                data, tls = gen.request_bytes(proto, s, gplus=gp or "+", search="needle" if s == "/hello.sh" else None)
+                lreqs.append((data, tls, "live"))
+        if proto in ("http", "https", "wap"):
+            pre = b"/wap" if proto == "wap" else b""
+            for s in (b"/notes.txt.gz", b"/dir1", b"/nonexistent", b"/hello.sh"):
+                lreqs.append((b"HEAD " + pre + s + b" HTTP/1.0\r\n\r\n", gen.TLS[proto], "live"))
+    for data, tls in header_requests(rng)[::3]:
+        lreqs.append((data, tls, "live-headers"))
+    for d, tl in BARE_PROBES:
+        lreqs.append((d, tl, "live"))
+    for data, tls in malformed_stream(rng)[::4]:
+        lreqs.append((data, tls, "live-malformed"))
+    # over TLS the client cannot half-close: keep requests whose end the server can see
+    def complete(d, tl):
+        if not tl:
+            return True
+        if d.startswith((b"GET ", b"HEAD ")):
+            return d.endswith(b"\r\n\r\n") or d.endswith(b"\n\n")
+        return d.endswith(b"\n")
+    lreqs = [(d, tl, lb) for d, tl, lb in lreqs if complete(d, tl)]
+    lj = [{"data": gen.lat(d), "tls": tl} for d, tl, _ in lreqs]
+    nl = 3 if tier == "quick" else 6
+    parts = [list(range(k, len(lj), nl)) for k in range(nl)]
+    ljobs = [{"op": "c03_live", "tree": ltree, "config": live_cfg, "requests": [lj[i] for i in part]} for part in parts]
+    ljobs += [{"op": "requests_socket", "tree": ltree, "config": live_cfg, "requests": [lj[i] for i in part]} for part in parts]
+    ljobs += [{"op": "world", "tree": ltree, "config": live_cfg, "requests": lj}]
+    lres = impl_run_parallel(ljobs, chunks=len(ljobs))
+    for r in lres:
+        if not r["ok"]:
+            raise RuntimeError(r["err"] + "\n" + r.get("tb", ""))
+    mem = lres[-1]["res"]["results"]
+    stats["live_requests"] = len(lreqs)
+    stats["transport_diffs"] = 0
+    tindex_save, sizes_save = tindex, sizes
+    tindex = {"/" + e["path"]: ("dir" if e.get("kind") == "dir" else "file") for e in ltree}
+    sizes = {"/" + e["path"]: len(e.get("data", "")) for e in ltree if e.get("kind", "file") == "file"}
+    sizes["/empty.txt.gz"] = 0
+    for tname, off in (("tcp", 0), ("socketpair", nl)):
+        for pk, part in enumerate(parts):
+            for i, o in zip(part, lres[off + pk]["res"]["results"]):
+                data, tls, label = lreqs[i]
+                if o["exc"] and tname == "tcp":
+                    o = dict(o, exc="client: " + o["exc"])
+                if judge(data, tls, label, o, "live", transport=tname):
+                    found = True
+                    continue
+                a = gen.mask_times(o["out"].encode("latin-1"))
+                b = gen.mask_times(mem[i]["out"].encode("latin-1"))
+                chk.count(("transport", tname, data, tls), nontrivial=True)
+                if a != b and not mem[i]["exc"]:
+                    found = True
+                    stats["transport_diffs"] += 1
+                    m = re.search(r"\[(\w+)/", " ".join(mem[i]["log"]))
+                    chk.violation({"what": "the reply a client receives over a real %s differs from the reply the same handler writes to an in-memory file"
+                                           % ("TCP connection to the real server" if tname == "tcp" else "socket"),
+                                   "request_latin1": gen.lat(data), "tls": tls, "received_head": a[:300].decode("latin-1"),
+                                   "received_tail": a[-200:].decode("latin-1"), "in_memory_head": b[:300].decode("latin-1"),
+                                   "lengths": [len(a), len(b)], "config": live_cfg, "tree": ltree},
+                                  tag=f"transport-dependence:{tname}:{CLS.get(m.group(1) if m else None) or 'none'}")
+    tindex, sizes = tindex_save, sizes_save
 
     # ---- descriptor soak: hundreds of distinct requests under a tight descriptor limit, then the first ones again ----
     stree = [e for e in tree if not e["path"].startswith("odd/")]
